@@ -442,7 +442,14 @@ func pick[T any](t *rapid.T, pool []T, label string) T {
 
 type gen struct {
 	t *rapid.T
+	// at: what the local value (@) is at this point of the plan when an earlier step replaced
+	// it by a known map ("" = the root): local paths are then generated too
+	at string
 }
+
+// members of the maps a plan step can make the local value
+var atInts = map[string][]string{"$.src.m": {"@.x"}, "$.src.deep.a": {"@.n"}, "$.src.objs[0]": {"@.v"}}
+var atStrs = map[string][]string{"$.src.m": {"@.y"}, "$.src.deep.a": {"@.s"}, "$.src.objs[0]": {"@.k"}}
 
 // wrong returns an argument of another kind than wanted (literal, path or call).
 func (g *gen) wrong(kind string, depth int) any {
@@ -479,6 +486,9 @@ func (g *gen) expr(kind string, depth int) any {
 		if leaf {
 			if rapid.Bool().Draw(g.t, "lit") {
 				return pick(g.t, intPool, "int")
+			}
+			if g.at != "" && rapid.Bool().Draw(g.t, "local") {
+				return pick(g.t, atInts[g.at], "localint")
 			}
 			return pick(g.t, srcInts, "intpath")
 		}
@@ -525,6 +535,9 @@ func (g *gen) expr(kind string, depth int) any {
 		if leaf {
 			if rapid.Bool().Draw(g.t, "lit") {
 				return pick(g.t, strPool, "str")
+			}
+			if g.at != "" && rapid.Bool().Draw(g.t, "local") {
+				return pick(g.t, atStrs[g.at], "localstr")
 			}
 			return pick(g.t, srcStrs, "strpath")
 		}
@@ -702,7 +715,19 @@ func (g *gen) step(i int) any {
 	case 3:
 		return []any{"set", []any{pick(g.t, []string{"root", "at"}, "n"), pick(g.t, []any{"asm", "x", "asm.r9", int64(3), "bad path["}, "part"), pick(g.t, []any{"viaroot", "y"}, "part2")}, g.arg("any", depth)}
 	case 4:
+		if rapid.Bool().Draw(g.t, "knownat") {
+			// the local value of the following steps is a known map
+			g.at = pick(g.t, []string{"$.src.m", "$.src.deep.a", "$.src.objs[0]"}, "atmap")
+			return []any{"get", g.at}
+		}
+		g.at = ""
 		return g.arg("any", depth) // becomes @ for the next step
+	}
+	if g.at != "" && rapid.IntRange(0, 2).Draw(g.t, "localcond") == 0 {
+		// a cond whose clauses hold bare local paths (cond evaluates its clauses lazily, with
+		// code of its own)
+		k := pick(g.t, []string{"int", "str"}, "lck")
+		return []any{"set", slot, []any{"cond", []any{g.arg("bool", depth), g.expr(k, 0)}, []any{true, g.expr(k, 0)}}}
 	}
 	return []any{"set", slot, g.arg("any", depth)}
 }
